@@ -121,6 +121,8 @@ class FuncVerifier(object):
         self.lib = lib
         self.modules = modules
         self.class_name = class_name
+        self.used_callees = set()      # keys of the contracts this function's proof relies on at modular calls
+        self.used_lemmas = set()       # ghost lemmas its ghost code instantiates
         # functions defined inside functions: name -> qualified name ('outer.inner', the name its contract is filed under)
         qual = contract.key.split('::')[1].split('#')[0]
         self.qual = qual
@@ -324,12 +326,14 @@ class FuncVerifier(object):
             elif kind == 'lemma?':
                 # assume (requires => ensures) without proving the requires here (always sound)
                 lem = self.lib.lemmas[h[1]]
+                self.used_lemmas.add(h[1])
                 sp = self.spec(st, extra=extra)
                 args = [sp.ev_str(a) for a in h[2]]
                 pre, post = instantiate_lemma(self.lib, lem, args)
                 self.assume(st, z3.Implies(z3.And(*pre) if pre else z3.BoolVal(True), z3.And(*post)))
             elif kind == 'lemma':
                 lem = self.lib.lemmas[h[1]]
+                self.used_lemmas.add(h[1])
                 sp = self.spec(st, extra=extra)
                 args = [sp.ev_str(a) for a in h[2]]
                 pre, post = instantiate_lemma(self.lib, lem, args)
@@ -346,6 +350,7 @@ class FuncVerifier(object):
                 else:
                     _, binders, name, argexprs = h
                 lem = self.lib.lemmas[name]
+                self.used_lemmas.add(name)
                 sp = self.spec(st, extra=extra)
                 kvs, rngs = [], []
                 for (k, lo, hi) in binders:
@@ -2314,6 +2319,7 @@ class FuncVerifier(object):
         callee = self.select_variant(mfile, mcls, meth, [elem_ref] + args, st)
         if callee is None or callee.modifies or callee.modifies_scalar or not callee.ensures:
             raise OutOfFragment('all(...): %s.%s has no pure functional contract' % (seq.cls, meth), node)
+        self.used_callees.add(callee.key)
         try:
             e0 = ast.parse(callee.ensures[0], mode='eval').body
         except SyntaxError:
@@ -2563,6 +2569,7 @@ class FuncVerifier(object):
             callee = self.lib.by_name.get((ffile, fname))
         if callee is None:
             raise OutOfFragment('call to %s which has no contract' % fname, n)
+        self.used_callees.add(callee.key)
         ordn = self.call_ord.get(id(n))
         if ordn is None:
             k = self.auto_ord.get(fname, 0)
